@@ -1,6 +1,7 @@
 import GoRedisModel.Proofs.LifeSys
 import GoRedisModel.Model.Lifecycle
 import GoRedisModel.Model.Conn
+import GoRedisModel.Proofs.SourceFacts
 /-! # C19 — connection resources are released however the connection ends -/
 namespace GoRedis
 
@@ -33,9 +34,10 @@ theorem C19_stop_releases (plain tls : Bool) (sched : List LAct)
 
 def isEnding : LifeAct → Option String
   | .cclose id => some id | .rst id => some id | .half id => some id | .quit id => some id | .bad id => some id
+  | .unread id => some id
   | _ => none
 
-/-- each ending mode (client close, reset, half request then close, QUIT, malformed frame) removes exactly
+/-- each ending mode (client close, reset, half request then close, QUIT, malformed frame, pipelined requests left unread) removes exactly
 that connection -/
 theorem C19_ending_removes_exactly (cfg : LifeCfg) (s : LifeSt) (a : LifeAct) (id : String) (h : isEnding a = some id) :
     (lifeStepA cfg s a).2.conns = s.conns.filter (fun c => c.1 != id) ∧ (lifeStepA cfg s a).2.running = s.running := by
@@ -96,5 +98,9 @@ theorem C19_churn_baseline (cfg : LifeCfg) (s : LifeSt) (cycles : List (Bool × 
         simp only [LifeSt.has, hconns] at this ⊢
         exact this)
     rw [this, hconns]
+
+/-- close and deregistration are deferred calls of the connection loop in the current source -/
+theorem C19_source_releases_deferred :
+    (factHolds "deferClose" && factHolds "deferRemoveConn") = true := source_releases_deferred
 
 end GoRedis
